@@ -188,3 +188,126 @@ func vStop(s *Server, d time.Duration) bool {
 		return false
 	}
 }
+
+// ---- fault-injecting TCP proxy
+type vFault struct {
+	Kind string // pass, cut-c2s, cut-s2c, blackhole, reset
+	K    int    // bytes forwarded in the cut direction before both sides are closed
+}
+
+type vProxy struct {
+	Addr   string
+	target string
+	lis    net.Listener
+	mu     sync.Mutex
+	faults []vFault
+	Dials  []time.Time
+	conns  []net.Conn
+	closed bool
+}
+
+func vStartProxy(target string) *vProxy {
+	lis, err := net.Listen("tcp", "127.0.0.1:0")
+	if err != nil {
+		panic(err)
+	}
+	p := &vProxy{Addr: lis.Addr().String(), target: target, lis: lis}
+	go p.loop()
+	return p
+}
+
+func (p *vProxy) SetTarget(t string) { p.mu.Lock(); p.target = t; p.mu.Unlock() }
+func (p *vProxy) Push(f ...vFault)   { p.mu.Lock(); p.faults = append(p.faults, f...); p.mu.Unlock() }
+func (p *vProxy) Pending() int       { p.mu.Lock(); defer p.mu.Unlock(); return len(p.faults) }
+func (p *vProxy) DialCount() int     { p.mu.Lock(); defer p.mu.Unlock(); return len(p.Dials) }
+
+func (p *vProxy) loop() {
+	for {
+		c, err := p.lis.Accept()
+		if err != nil {
+			return
+		}
+		p.mu.Lock()
+		p.Dials = append(p.Dials, time.Now())
+		f := vFault{Kind: "pass"}
+		if len(p.faults) > 0 {
+			f, p.faults = p.faults[0], p.faults[1:]
+		}
+		target := p.target
+		p.conns = append(p.conns, c)
+		p.mu.Unlock()
+		go p.serve(c, f, target)
+	}
+}
+
+func (p *vProxy) serve(c net.Conn, f vFault, target string) {
+	switch f.Kind {
+	case "reset":
+		if tc, ok := c.(*net.TCPConn); ok {
+			tc.SetLinger(0)
+		}
+		c.Close()
+		return
+	case "blackhole":
+		buf := make([]byte, 4096)
+		for {
+			if _, err := c.Read(buf); err != nil {
+				return
+			}
+		}
+	}
+	s, err := net.DialTimeout("tcp", target, 2*time.Second)
+	if err != nil {
+		c.Close()
+		return
+	}
+	p.mu.Lock()
+	p.conns = append(p.conns, s)
+	p.mu.Unlock()
+	pipe := func(dst, src net.Conn, limit int) {
+		buf := make([]byte, 2048)
+		n := 0
+		for {
+			k, err := src.Read(buf)
+			if k > 0 {
+				if limit >= 0 && n+k >= limit {
+					dst.Write(buf[:limit-n])
+					c.Close()
+					s.Close()
+					return
+				}
+				n += k
+				if _, werr := dst.Write(buf[:k]); werr != nil {
+					break
+				}
+			}
+			if err != nil {
+				break
+			}
+		}
+		c.Close()
+		s.Close()
+	}
+	lc, ls := -1, -1
+	if f.Kind == "cut-c2s" {
+		lc = f.K
+	}
+	if f.Kind == "cut-s2c" {
+		ls = f.K
+	}
+	go pipe(s, c, lc)
+	pipe(c, s, ls)
+}
+
+// CutAll closes every connection currently going through the proxy
+func (p *vProxy) CutAll() {
+	p.mu.Lock()
+	cs := p.conns
+	p.conns = nil
+	p.mu.Unlock()
+	for _, c := range cs {
+		c.Close()
+	}
+}
+
+func (p *vProxy) Close() { p.lis.Close(); p.CutAll() }
